@@ -69,13 +69,13 @@ func nodeArgs() []string {
 func genScript(c *vf.Ctx, idx int) []nscript.Op {
 	if idx == 0 {
 		// fixed script covering every path once or twice
-		k := []string{"init", "write", "write", "snapshot", "write", "write", "snapshot", "write", "snapshot", "reap",
+		k := []string{"init", "write", "write", "snapshot", "write", "pinned", "snapshot", "write", "write", "snapshot", "write", "snapshot", "reap",
 			"write", "load", "write", "snapshot", "write", "restart", "write", "snapshot", "write", "restart-nosnap",
 			"write", "boot", "write", "snapshot", "write", "snapshot", "snapshot", "reap", "write"}
 		return number(k)
 	}
 	r := c.Rand(uint64(1000 + idx))
-	kinds := []string{"write", "write", "write", "snapshot", "snapshot", "reap", "load", "boot", "restart", "restart-nosnap"}
+	kinds := []string{"write", "write", "write", "snapshot", "snapshot", "reap", "load", "boot", "restart", "restart-nosnap", "pinned"}
 	k := []string{"init", "write"}
 	for i := 0; i < 28; i++ {
 		k = append(k, kinds[r.IntN(len(kinds))])
@@ -94,6 +94,11 @@ func number(kinds []string) []nscript.Op {
 		case "load", "boot":
 			ops = append(ops, nscript.Op{Kind: k, Arg: l})
 			l++
+		case "pinned":
+			// a snapshot taken while a slow read pins the end of the WAL, and a
+			// write appended to that WAL before the reader leaves
+			ops = append(ops, nscript.Op{Kind: "slow-read-begin"}, nscript.Op{Kind: "snapshot"}, nscript.Op{Kind: "write", Arg: w}, nscript.Op{Kind: "slow-read-end"})
+			w++
 		default:
 			ops = append(ops, nscript.Op{Kind: k})
 		}
@@ -310,7 +315,7 @@ func thin(specs []crashSpec, n int) []crashSpec {
 }
 
 func run(c *vf.Ctx) {
-	c.Rule("crash case = (script, process incarnation, hook point, hit#) or (script, SIGKILL while op i is in flight after a seeded delay); scripts mix uniquely tagged non-idempotent writes, user snapshots (full and incremental), reaps, loads, boots, graceful and killed restarts on a single real rqlited process; a recording run with VERIF_TRACE lists every (point, hit#) reached, quick crashes at the first and one seeded later hit of every point, thorough at every hit. After each crash the image is restarted twice (as is; with clean_snapshot removed) and the state read back with a strong read must equal model(acked) or model(acked + in-flight op), and a further write must work. non-trivial = the process really exited at the requested point (exit code 197) or was killed with an op in flight; distinct by crash spec")
+	c.Rule("crash case = (script, process incarnation, hook point, hit#) or (script, SIGKILL while op i is in flight after a seeded delay); scripts mix uniquely tagged non-idempotent writes, user snapshots (full and incremental), snapshots taken while a slow background read pins the end of the WAL followed by a write appended to that WAL before the reader leaves, reaps, loads, boots, graceful and killed restarts on a single real rqlited process; a recording run with VERIF_TRACE lists every (point, hit#) reached, quick crashes at the first and one seeded later hit of every point, thorough at every hit. After each crash the image is restarted twice (as is; with clean_snapshot removed) and the state read back with a strong read must equal model(acked) or model(acked + in-flight op), and a further write must work. non-trivial = the process really exited at the requested point (exit code 197) or was killed with an op in flight; distinct by crash spec")
 	c.Assume("process-crash model: os.Exit at the hook, completed write() calls survive; no power-loss / unsynced-dirent modelling")
 	c.Assume("single-node cluster; minority crash of a multi-node cluster is exercised in C02/C22")
 	tmp := vf.TempDir("c03")
